@@ -284,7 +284,108 @@ def check_write(case):
     return True, ["write", op, "n=%d" % n]
 
 
+# ---- real Clients over the fake network ---------------------------------------------------
+
+
+def _real_env(n, states=None, vkinds=None, ignore_exc=False):
+    from vlib.harness import Env
+    from vlib.mcserver import Item
+    env = Env(nservers=n)
+    caches = []
+    for i, srv in enumerate(env.servers):
+        if states is not None:
+            for k in states[i]:
+                val = b"" if (vkinds and vkinds[i]) else b"v%d-%s" % (i, k.encode())
+                srv.store[k.encode()] = Item(val, 0, 0, srv._next_cas(), srv.clock.now)
+        caches.append(Client(env.addrs[i], socket_module=env.net, ignore_exc=ignore_exc))
+    return env, caches
+
+
+def check_read_real(case):
+    op, states = case[0], case[1]
+    vkinds = case[2] if len(case) > 2 else (0,) * len(states)
+    n = len(states)
+    env, caches = _real_env(n, states, vkinds)
+    fc = FallbackClient(caches)
+    r = env.call(getattr(fc, op), K1) if op in ("get", "gets") else env.call(getattr(fc, op), [K1, K2])
+    desc = "%s over real Clients with cache states %r%s" % (op, states, " (empty-bytes values)" if any(vkinds) else "")
+    if r[0] == "exc":
+        raise Violation(["read-raises", op, "real"], "%s raised %r" % (desc, r[1]))
+    if op in ("get", "gets"):
+        answering = next((i for i, st in enumerate(states) if K1 in st), None)
+    else:
+        answering = next((i for i, st in enumerate(states) if st), None)
+    consulted = [i for i, srv in enumerate(env.servers) if srv.log]
+    want = list(range(n if answering is None else answering + 1))
+    if consulted != want:
+        raise Violation(["read-consulted", op, "real"], "%s: servers %r received commands, expected %r" % (desc, consulted, want))
+    for i in consulted:
+        if len(env.servers[i].log) != 1:
+            raise Violation(["read-consulted-twice", op, "real"], "%s: server %d received %r" % (desc, i, env.servers[i].log))
+    if answering is None:
+        if not _is_miss(op, r[1]):
+            raise Violation(["read-allmiss", op, "real"], "%s returned %r, not a miss" % (desc, r[1]))
+    else:
+        def val(k):
+            return b"" if vkinds[answering] else b"v%d-%s" % (answering, k.encode())
+        present = [k for k in (K1, K2) if k in states[answering]]
+        if op == "get":
+            exp = val(K1)
+        elif op == "gets":
+            exp = (val(K1), b"%d" % (1 + sorted(states[answering]).index(K1)))
+        elif op == "get_many":
+            exp = {k: val(k) for k in present}
+        else:
+            exp = {k: (val(k), b"%d" % (1 + list(states[answering]).index(k))) for k in present}
+        if r[1] != exp:
+            raise Violation(["read-result", op, "real"], "%s returned %r, expected server %d's answer %r" % (desc, r[1], answering, exp))
+    return (n >= 2 and answering not in (0,)) or any(vkinds), ["read-real", op, "n=%d" % n]
+
+
+def read_real_cases(tier, seed):
+    for c in read_cases(tier, seed):
+        if len(c) > 2:
+            if all(v in (0, 1) for v in c[2]):
+                yield c
+        elif len(c[1]) <= 3 or tier == "thorough":
+            yield c
+
+
+def check_write_real(case):
+    op, n, combo = case
+    req, opt = WRITE_SIG[op]
+    args = [(5 if (op in ("incr", "decr") and r == "value") else REQ_VALUES[r]) for r in req]
+    kwargs = {}
+    for (name, default), (mode, v) in zip(opt, combo):
+        if mode == "pos":
+            args.append(v)
+        elif mode == "kw":
+            kwargs[name] = v
+    env, caches = _real_env(n, [(K1,)] * n)
+    fc = FallbackClient(caches)
+    r = env.call(getattr(fc, op), *args, **kwargs)
+    desc = "%s(*%r, **%r) over %d real Clients" % (op, args, kwargs, n)
+    if r[0] == "exc":
+        raise Violation(["write-raises", op, "real"], "%s raised %r" % (desc, r[1]))
+    # reference: what a plain Client sends for the same call, with FallbackClient's documented defaults filled in
+    full = dict(zip(req, args[:len(req)]))
+    for (name, default), (mode, v) in zip(opt, combo):
+        full[name] = default if mode == "omit" else v
+    renv, rc = _real_env(1, [(K1,)])
+    rr = renv.call(getattr(rc[0], op), **full)
+    if rr[0] == "exc":
+        raise Violation(["reference-raises", op], "plain Client raised %r for %r" % (rr[1], full))
+    if env.servers[0].log != renv.servers[0].log:
+        raise Violation(["write-command", op, "real"], "%s: primary received %r, a plain Client sends %r" % (desc, env.servers[0].log, renv.servers[0].log))
+    for i in range(1, n):
+        if env.servers[i].log:
+            raise Violation(["write-to-fallback", op, "real"], "%s: fallback server %d received %r" % (desc, i, env.servers[i].log))
+    return True, ["write-real", op, "n=%d" % n]
+
+
 PARTS = [
     Part("reads-scripted", "enum", check_read, cases=read_cases, shards={"quick": 2, "thorough": 2}, exhaustive=True),
     Part("writes-scripted", "enum", check_write, cases=write_cases, shards={"quick": 2, "thorough": 2}, exhaustive=True),
+    Part("reads-real", "enum", check_read_real, cases=read_real_cases, shards={"quick": 4, "thorough": 4}, exhaustive=True),
+    Part("writes-real", "enum", check_write_real, cases=write_cases, shards={"quick": 4, "thorough": 4}, exhaustive=True),
 ]
